@@ -1,0 +1,81 @@
+//go:build verif
+
+// Contracts for the verification machinery in /verif (comment-only; compiled only with -tags verif).
+//
+// L1 store accessors against the abstract store str_store; L2 stream operations against the L1 contracts, the
+// contracts of the arithmetic in x/stream/types and the assumed bank contracts (ghost bank_bal); L3 message server.
+package keeper
+
+//@ ghost str_store (Array stream.Key (Slice Int))
+//@ kvstore str_store str_key
+
+// ---------------------------------------------------------------- L1
+
+//@ func Keeper.SetStream(ctx, receiverAddr, senderAddr, stream) (err)
+//@   props C10 C11 C12 C13
+//@   requires 1 <= len(receiverAddr) && len(receiverAddr) <= 255 && 1 <= len(senderAddr) && len(senderAddr) <= 255
+//@   modifies str_store
+//@   ensures err == nil && str_store == strPut(old(str_store), bytesval(receiverAddr), bytesval(senderAddr), stream)
+
+//@ func Keeper.IsStream(ctx, receiverAddr, senderAddr) (ok)
+//@   props C10 C11 C12 C13
+//@   requires 1 <= len(receiverAddr) && len(receiverAddr) <= 255 && 1 <= len(senderAddr) && len(senderAddr) <= 255
+//@   pure
+//@   ensures ok == strHas(str_store, bytesval(receiverAddr), bytesval(senderAddr))
+
+//@ func Keeper.GetStream(ctx, receiverAddr, senderAddr) (stream, found)
+//@   props C10 C11 C12 C13
+//@   requires 1 <= len(receiverAddr) && len(receiverAddr) <= 255 && 1 <= len(senderAddr) && len(senderAddr) <= 255
+//@   pure
+//@   ensures found == strHas(str_store, bytesval(receiverAddr), bytesval(senderAddr))
+//@   ensures found ==> stream == strGet(str_store, bytesval(receiverAddr), bytesval(senderAddr))
+
+//@ func Keeper.DeleteStream(ctx, receiverAddr, senderAddr)
+//@   props C10 C11 C12 C13
+//@   requires 1 <= len(receiverAddr) && len(receiverAddr) <= 255 && 1 <= len(senderAddr) && len(senderAddr) <= 255
+//@   modifies str_store
+//@   ensures strHas(old(str_store), bytesval(receiverAddr), bytesval(senderAddr)) ==> str_store == strDel(old(str_store), bytesval(receiverAddr), bytesval(senderAddr))
+//@   ensures !strHas(old(str_store), bytesval(receiverAddr), bytesval(senderAddr)) ==> str_store == old(str_store)
+
+//@ func Keeper.GetParams(ctx) (params)
+//@   props C10 C12 C16
+//@   pure
+//@   ensures strParamsSet(str_store) ==> params == strParams(str_store)
+
+//@ func Keeper.SetParams(ctx, params) (err)
+//@   props C16
+//@   modifies str_store
+//@   ensures err == nil ==> str_store == strParamsPut(old(str_store), params) && !isnil(params.ValidatorFee) && 0 <= dval(params.ValidatorFee) && dval(params.ValidatorFee) <= ONE
+//@   ensures err != nil ==> str_store == old(str_store)
+
+// ---------------------------------------------------------------- L2: stream operations
+
+// A release.  `rel` is the statement's formula: everything at/after the deposit-zero time, otherwise
+// min(deposit, rate x whole seconds since the last release).
+//@ func Keeper.ClaimFromStream(ctx, receiverAddr, senderAddr) (recv, fee, total, remaining, err)
+//@   props C10 C11 C12
+//@   requires 1 <= len(receiverAddr) && len(receiverAddr) <= 255 && 1 <= len(senderAddr) && len(senderAddr) <= 255
+//@   requires STR_WF(str_store) && strParamsSet(str_store) && BANK_OK(bank_bal)
+//@   requires !isnil(strParams(str_store).ValidatorFee) && 0 <= dval(strParams(str_store).ValidatorFee) && dval(strParams(str_store).ValidatorFee) <= ONE
+//@   requires strHas(str_store, bytesval(receiverAddr), bytesval(senderAddr)) ==> UnixNs(strGet(str_store, bytesval(receiverAddr), bytesval(senderAddr)).LastOutflowTime) <= UnixNs(blockTime(ctx))
+//@   let r := bytesval(receiverAddr)
+//@   let sd := bytesval(senderAddr)
+//@   let x0 := strGet(old(str_store), bytesval(receiverAddr), bytesval(senderAddr))
+//@   let x1 := strGet(str_store, bytesval(receiverAddr), bytesval(senderAddr))
+//@   let now := blockTime(ctx)
+//@   let dn := x0.Deposit.Denom
+//@   let esc := bytesval(modAddr("stream"))
+//@   let fc := bytesval(modAddr(k.feeCollectorName))
+//@   let vf := dval(strParams(old(str_store)).ValidatorFee)
+//@   let rel := (UnixNs(now) >= UnixNs(x0.DepositZeroTime)) ? Amt(x0.Deposit) : min(Amt(x0.Deposit), x0.FlowRate * ((UnixNs(now) - UnixNs(x0.LastOutflowTime)) / 1000000000))
+//@   modifies str_store, bank_bal
+//@   nopanic
+//@   hint strHas(str_store, bytesval(receiverAddr), bytesval(senderAddr)) ==> 0 <= Amt(x0.Deposit) * vf && Amt(x0.Deposit) * vf <= Amt(x0.Deposit) * ONE
+//@   ensures @needs_funded_stream err == nil ==> strHas(old(str_store), r, sd) && Amt(x0.Deposit) > 0
+//@   ensures @released_exactly err == nil ==> Amt(total) == rel && Amt(remaining) == Amt(x0.Deposit) - rel && total.Denom == dn && remaining.Denom == dn
+//@   ensures @fee_split err == nil ==> Amt(fee) == (rel * vf) / ONE && Amt(recv) + Amt(fee) == rel && fee.Denom == dn && recv.Denom == dn
+//@   ensures @stream_updated err == nil ==> str_store == strPut(old(str_store), r, sd, x1) && x1.Deposit == remaining && x1.LastOutflowTime == now && x1.FlowRate == x0.FlowRate && x1.DepositZeroTime == x0.DepositZeroTime && x1.Cancellable == x0.Cancellable
+//@   ensures @rejected_keeps_streams err != nil ==> str_store == old(str_store)
+//@   ensures @escrow_pays_receiver_and_fee err == nil ==> forall a `BytesV`, d string :: {balOf(bank_bal, a, d)} balOf(bank_bal, a, d) == balOf(old(bank_bal), a, d) - ((a == esc && d == dn) ? rel : 0) + ((a == r && d == dn) ? Amt(recv) : 0) + ((a == fc && d == dn) ? Amt(fee) : 0)
+//@   ensures @bank_ok BANK_OK(bank_bal)
+//@   ensures @never_stranded strHas(old(str_store), r, sd) && Amt(x0.Deposit) > 0 && balOf(old(bank_bal), esc, dn) >= Amt(x0.Deposit) && !bankBlocked(r) ==> err == nil
